@@ -8,17 +8,17 @@ Lemma mask_okP (code : cmp_code) :
   mask_ok code.
 Proof. by move=> /forallP h a b d /(implyP (forallP (forallP (h a) b) d)) /eqP. Qed.
 
-Lemma bridge_greater : code_ok gen_greater (Some CGt) CGt.
+Lemma bridge_greater : code_ok gen_greater false CGt.
 Proof. by split=> //; apply: mask_okP; vm_compute; apply/forallP => -[]; apply/forallP => -[]; apply/forallP => -[]. Qed.
-Lemma bridge_greater_equal : code_ok gen_greater_equal (Some CGe) CGe.
+Lemma bridge_greater_equal : code_ok gen_greater_equal true CGt.
 Proof. by split=> //; apply: mask_okP; vm_compute; apply/forallP => -[]; apply/forallP => -[]; apply/forallP => -[]. Qed.
-Lemma bridge_less : code_ok gen_less (Some CLt) CLt.
+Lemma bridge_less : code_ok gen_less false CLt.
 Proof. by split=> //; apply: mask_okP; vm_compute; apply/forallP => -[]; apply/forallP => -[]; apply/forallP => -[]. Qed.
-Lemma bridge_less_equal : code_ok gen_less_equal (Some CLe) CLe.
+Lemma bridge_less_equal : code_ok gen_less_equal true CLt.
 Proof. by split=> //; apply: mask_okP; vm_compute; apply/forallP => -[]; apply/forallP => -[]; apply/forallP => -[]. Qed.
-Lemma bridge_maximum : code_ok gen_maximum None CGt.
+Lemma bridge_maximum : select_ok gen_maximum CGt.
 Proof. by split=> //; apply: mask_okP; vm_compute; apply/forallP => -[]; apply/forallP => -[]; apply/forallP => -[]. Qed.
-Lemma bridge_minimum : code_ok gen_minimum None CLt.
+Lemma bridge_minimum : select_ok gen_minimum CLt.
 Proof. by split=> //; apply: mask_okP; vm_compute; apply/forallP => -[]; apply/forallP => -[]; apply/forallP => -[]. Qed.
 
 Lemma bridge_equal_folds :
